@@ -294,6 +294,34 @@ def run_prog(prog):
             kw["tyme"] = a["tyme"]
         runs.append(kw)
     raised = "none"
+    if prog.get("manual"):
+        # the scheduler driven by hand, as the documented manual API allows: enter(), some recur()s, then either
+        # exit() or — without an exit — a full do(doers=...) over the same doers (outside the Coq model)
+        m = prog["manual"]
+        try:
+            doist.doers = list(doers)
+            try:
+                doist.enter()
+                for _ in range(m["recurs"]):
+                    doist.recur()
+            except BaseException:
+                doist.exit()
+                raise
+            if m["then"] == "do":
+                doist.do(doers=handed)
+            else:
+                doist.exit()
+            ctx.log.append(("DoReturn", 0, doist.tyme))
+        except (ScriptError, ScriptAttrError):
+            raised = "script"
+            ctx.log.append(("DoRaise", 0, doist.tyme))
+        except KeyboardInterrupt:
+            raised = "kbd"
+            ctx.log.append(("DoRaise", 0, doist.tyme))
+        except Exception as ex:
+            raised = "escape:" + type(ex).__name__
+            ctx.log.append(("DoRaise", 0, doist.tyme))
+        runs = []
     for kw in runs:
         doist.cycles = 0
         try:
@@ -404,7 +432,7 @@ EK = {"Enter", "Recur", "Clean", "Cease", "Abort", "Exit", "ExtRet", "RemRet", "
 def outside_model(prog):
     """Programs the Coq model does not express (decided by the direct oracle only): a doer whose
     clean/cease/abort/exit context itself raises."""
-    return any(d.get("hookraise") for d in prog["defs"].values())
+    return any(d.get("hookraise") for d in prog["defs"].values()) or bool(prog.get("manual"))
 
 
 def to_coq(case, obs):
@@ -925,5 +953,18 @@ def gen_hookraise(rng, n, nest_depths=(0, 1, 2)):
             p["limit"] = p["tock"] * rng.choice([1, 2, 3])
         if rng.random() < 0.3:
             p["mode"] = "ado"
+        out.append(p)
+    return out
+
+
+def gen_manual(rng, n, thens=("exit", "do", "do")):
+    """Programs driven through the manual API (enter, recur*, then exit or a do() over the same doers): oracle only."""
+    out = []
+    for _ in range(n):
+        p = gen_static(rng, n_leaves=rng.randint(2, 5), nest_depth=rng.choice([0, 1, 2]), faults=(rng.random() < 0.3),
+                       tocks="dyadic", limit_p=1.0)
+        if not p["limit"]:
+            p["limit"] = 3 * p["tock"]
+        p["manual"] = {"recurs": rng.randint(0, 4), "then": rng.choice(list(thens))}
         out.append(p)
     return out
